@@ -536,10 +536,14 @@ class SgzReader(object):
                 raise IndexError(self.range_error.format(min_cd_idx, 0, max_cd_len-1))
             if not 0 < max_cd_idx <= max_cd_len:
                 raise IndexError(self.range_error.format(max_cd_idx, 1, max_cd_len))
+            if not min_cd_idx < max_cd_idx:
+                raise IndexError(self.range_error.format((min_cd_idx, max_cd_idx), 0, max_cd_len))
             cd_len = max_cd_idx - min_cd_idx
 
         if min_sample_idx is None or max_sample_idx is None:
             cd = np.zeros((cd_len, self.n_samples))
+        elif not 0 <= min_sample_idx < max_sample_idx <= self.n_samples:
+            raise IndexError(self.range_error.format((min_sample_idx, max_sample_idx), 0, self.n_samples))
         else:
             cd = np.zeros((cd_len, max_sample_idx - min_sample_idx))
 
@@ -600,10 +604,14 @@ class SgzReader(object):
                 raise IndexError(self.range_error.format(min_ad_idx, 0, max_ad_len-1))
             if not 0 < max_ad_idx <= max_ad_len:
                 raise IndexError(self.range_error.format(max_ad_idx, 1, max_ad_len))
+            if not min_ad_idx < max_ad_idx:
+                raise IndexError(self.range_error.format((min_ad_idx, max_ad_idx), 0, max_ad_len))
             ad_len = max_ad_idx - min_ad_idx
 
         if min_sample_idx is None or max_sample_idx is None:
             ad = np.zeros((ad_len, self.n_samples))
+        elif not 0 <= min_sample_idx < max_sample_idx <= self.n_samples:
+            raise IndexError(self.range_error.format((min_sample_idx, max_sample_idx), 0, self.n_samples))
         else:
             ad = np.zeros((ad_len, max_sample_idx - min_sample_idx))
 
@@ -810,6 +818,8 @@ class SgzReader(object):
 
             min_sample_id = 0 if min_sample_id is None else min_sample_id
             max_sample_id = self.n_samples if max_sample_id is None else max_sample_id
+            if not 0 <= min_sample_id < max_sample_id <= self.n_samples:
+                raise IndexError(self.range_error.format((min_sample_id, max_sample_id), 0, self.n_samples))
             trace = chunk[index % self.blockshape[1], min_sample_id:max_sample_id]
             return trace
 
@@ -828,6 +838,8 @@ class SgzReader(object):
             min_xl = self.blockshape[1] * (xl // self.blockshape[1])
             min_sample_id = 0 if min_sample_id is None else min_sample_id
             max_sample_id = self.n_samples if max_sample_id is None else max_sample_id
+            if not 0 <= min_sample_id < max_sample_id <= self.n_samples:
+                raise IndexError(self.range_error.format((min_sample_id, max_sample_id), 0, self.n_samples))
 
             min_z = self.blockshape[2] * (min_sample_id // self.blockshape[2])
             max_z = self.blockshape[2] * ((max_sample_id + self.blockshape[2] - 1) // self.blockshape[2])
